@@ -238,6 +238,16 @@ func (r *run) post(st mbt.Step) error {
 	}
 	// requests the model does not know about may only show up later; they are judged when handled
 	r.collect(want, 0)
+	// a retention request names a checkpoint that is not completed (its snapshot write has not been performed):
+	// the operators would drop the newest completed checkpoint for one that recovery cannot use
+	for _, o := range r.ops {
+		for _, a := range r.retains[r.label[o]] {
+			if maxU(ids(a)) > r.newest {
+				return &violation{what: fmt.Sprintf("RetainNamesNewest: the job tells operator %s to retain only %v although the snapshot of checkpoint %d is not written; the newest completed checkpoint is %d", r.label[o], ids(a), maxU(ids(a)), r.newest),
+					expected: r.newest, observed: ids(a)}
+			}
+		}
+	}
 	quiet := len(st.List("w")) == 0 && len(st.List("nt")) == 0 && len(st.List("ch")) == 0 && len(r.writes) == 0
 	for _, o := range r.ops {
 		if len(asList(rpc[o])) > 0 || len(r.retains[r.label[o]]) > 0 {
